@@ -386,6 +386,66 @@ func run(prop, tier string, budget float64, evidence, known, replays string, wor
 			}
 		}
 	}
+	// ---- free-running race pass (supplementary: the data-race-freedom assumption of the exploration above)
+	rp := map[string]any{"ran": false}
+	if bin := filepath.Join(filepath.Dir(self), "racepass.test"); fileExists(bin) && os.Getenv("VERIF_NO_RACEPASS") == "" {
+		test := "TestRace" + prop
+		if list, _ := exec.Command(bin, "-test.list", "^"+test+"$").Output(); strings.Contains(string(list), test) {
+			count := "1"
+			if tier == "thorough" {
+				count = "10"
+			}
+			t0 := time.Now()
+			cmd := exec.Command(bin, "-test.run", "^"+test+"$", "-test.v", "-test.count", count, "-test.timeout", "20m")
+			cmd.Env = append(os.Environ(), "GORACE=halt_on_error=0")
+			out, _ := cmd.CombinedOutput()
+			txt := string(out)
+			races := strings.Count(txt, "WARNING: DATA RACE")
+			failed := strings.Contains(txt, "--- FAIL") || strings.Contains(txt, "panic:")
+			iters := 0
+			for _, l := range strings.Split(txt, "\n") {
+				if i := strings.Index(l, "racepass-iterations="); i >= 0 {
+					n, _ := strconv.Atoi(strings.TrimSpace(l[i+len("racepass-iterations="):]))
+					if n > iters {
+						iters = n
+					}
+				}
+			}
+			rp = map[string]any{"ran": true, "test": test, "free_running_iterations": iters, "data_races_reported": races, "failed": failed, "wall_s": time.Since(t0).Seconds(),
+				"note": "native (not rewritten) build of the same tree with -race; a sample of free-running executions, supplementary to the exhaustive exploration"}
+			if races > 0 || failed {
+				path := filepath.Join(replays, prop+"-racepass.log")
+				os.WriteFile(path, out, 0o644)
+				what := "the race detector reported a data race"
+				if races == 0 {
+					what = "the free-running pass failed"
+				}
+				first := ""
+				inReport := races == 0
+				for _, l := range strings.Split(txt, "\n") {
+					if strings.Contains(l, "WARNING: DATA RACE") {
+						inReport = true
+						continue
+					}
+					if !inReport {
+						continue
+					}
+					if races > 0 && strings.Contains(l, ".go:") && !strings.Contains(l, "/usr/lib/go") && !strings.Contains(l, "_test.go") && !strings.Contains(l, "<autogenerated>") {
+						first = strings.TrimSpace(l)
+						break
+					}
+					if races == 0 && strings.Contains(l, "_test.go:") && !strings.Contains(l, "racepass-iterations") {
+						first = strings.TrimSpace(l)
+						break
+					}
+				}
+				nviol++
+				exit = 1
+				lines = append(lines, fmt.Sprintf("VIOLATION property=%s replay=%s", prop, path))
+				lines = append(lines, fmt.Sprintf("  racepass %s: %s (%d reports; first location: %.300s)", test, what, races, first))
+			}
+		}
+	}
 	if len(samples) == 0 {
 		samples = append(samples, "no sample trace recorded")
 	}
@@ -402,7 +462,7 @@ func run(prop, tier string, budget float64, evidence, known, replays string, wor
 		"assumptions": []string{
 			"vs runtime model of channels/select/sync/context/timers (validated by engine/selftest against native Go)",
 			"source rewriter is semantics preserving (residual scan = 0; repository test-suite passes on the rewritten tree in native mode, bin/selfcheck)",
-			"data-race freedom of code between visible operations (state caching and big-step transitions); checked separately by bin/racepass",
+			"data-race freedom of code between visible operations (state caching and big-step transitions); sampled separately by the free-running -race pass where coverage.racepass.ran is true",
 			"bounds as listed per scenario (preemption bound c, fault bound f, scenario sizes)",
 		},
 		"coverage": map[string]any{
@@ -419,6 +479,7 @@ func run(prop, tier string, budget float64, evidence, known, replays string, wor
 			"horizon_hits":                  tot.HorizonHits,
 			"scenarios":                     scens,
 			"known_findings_reported":       nknown,
+			"racepass":                      rp,
 		},
 	}
 	if rwstats != "" {
@@ -454,6 +515,11 @@ func run(prop, tier string, budget float64, evidence, known, replays string, wor
 		}
 	}
 	return exit
+}
+
+func fileExists(p string) bool {
+	_, err := os.Stat(p)
+	return err == nil
 }
 
 func envInt(k string) int {
